@@ -33,6 +33,10 @@ EXC = {"NoSuchRecording": lambda: NoSuchRecording("some/other-recording"), "Asse
        "TypeError": TypeError}
 
 
+# (round 7) resource-exhaustion errors: ordinary exceptions (subclasses of Exception) as far as the recorder is concerned
+EXC.update({"RecursionError": RecursionError, "MemoryError": MemoryError})
+
+
 class Interrupt(BaseException):
     """Stands for KeyboardInterrupt / SystemExit: a BaseException that is not an Exception."""
 
